@@ -301,6 +301,21 @@ func Generate(seed uint64, profile string) *Project {
 		p.Controllers = append(p.Controllers, x)
 	}
 
+	// (swarm, own stream) a controller with NO doc comment at all (no @Route, @Tag, description, @Security) that
+	// is not the first of its package: whatever gleece remembers from the declaration before it must not leak
+	if br := Stream(seed, "projgen/bare-controller/"+profile, 0); br.Chance(1, 4) && len(p.Controllers) > 1 {
+		ci := 1 + br.Intn(len(p.Controllers)-1)
+		if c := &p.Controllers[ci]; c.Name != "CtlX" {
+			c.HasRoute, c.Route, c.Tag, c.Desc, c.Security = false, "", "", "", nil
+			for mi := range c.Methods {
+				// method routes that leaned on a controller route ending in a slash
+				if !strings.HasPrefix(c.Methods[mi].Route, "/") {
+					c.Methods[mi].Route = "/" + c.Methods[mi].Route
+				}
+			}
+		}
+	}
+
 	g.fixOverlaps()
 
 	// (swarm, own stream) two controllers of one package declaring a method of the SAME name: legal as long as at
@@ -566,6 +581,32 @@ func (g *genState) newStruct(depth int) TypeRef {
 	n := g.r.Range(1, 4)
 	for i := 0; i < n; i++ {
 		s.Fields = append(s.Fields, g.acyclic(pkg, g.field(pkg, i, depth+1)))
+	}
+	// (swarm, own stream) a time.Time field; an EMBEDDED struct (anonymous field, promoted and flattened in JSON):
+	// own fields are then named after the embedding depth so that no promoted name or JSON key collides
+	xr := Stream(g.p.Seed, "projgen/struct-extras/"+s.Name, 0)
+	if xr.Chance(1, 5) {
+		s.Fields = append(s.Fields, Field{GoName: "At", JSON: "at", Type: TypeRef{Kind: "time"}})
+	}
+	if xr.Chance(1, 2) {
+		var cands []Struct
+		for _, e := range g.p.Structs {
+			if !e.IsError && e.Name != "Item" && (e.Pkg == pkg || (isMdl(e.Pkg) && (!isMdl(pkg) || e.Pkg < pkg))) {
+				cands = append(cands, e)
+			}
+		}
+		if len(cands) > 0 {
+			e := Pick(xr, cands)
+			s.EmbedDepth = e.EmbedDepth + 1
+			letter := string(rune('F' + s.EmbedDepth))
+			for i := range s.Fields {
+				if strings.HasPrefix(s.Fields[i].GoName, "F") {
+					s.Fields[i].GoName = letter + s.Fields[i].GoName[1:]
+					s.Fields[i].JSON = strings.ToLower(letter) + s.Fields[i].JSON[1:]
+				}
+			}
+			s.Fields = append([]Field{{GoName: e.Name, Type: TypeRef{Kind: "struct", Pkg: e.Pkg, Name: e.Name}, Embedded: true}}, s.Fields...)
+		}
 	}
 	// self-recursion through a pointer (materialisation cache / in-progress guard)
 	if g.profile == "order" && g.r.Chance(1, 5) {
